@@ -412,6 +412,9 @@ class Interp:
                     self.to_term(f["_filter_context"]),
                     self.to_term(parent),
                 )
+            if v.cls.__name__ == "JSONPointer" and "parts" in v.fields and "_s" in v.fields:
+                # a pointer is a value: (tag, tokens, text)
+                return S.mk_tuple([S.mk_str("<JSONPointer>"), self.to_term(v.fields["parts"]), self.to_term(v.fields["_s"])])
             return self.obj_term(v)
         if isinstance(v, bool):
             return S.mk_bool(v)
